@@ -54,24 +54,45 @@ def DFRA():
     return DataFieldRecordArray
 
 
-def impl_apply(conts, op):
-    """apply one operation to the list of real containers; returns ('ok', out) | ('err', kind)."""
+def impl_apply(conts, op, held=None):
+    """apply one operation to the list of real containers; returns ('ok', out) | ('err', kind).
+    `held`: list collecting the array objects the caller hands in or keeps a reference to."""
     k = op['op']
     D = DFRA()
+    hold = (lambda arr: held.append(arr)) if held is not None else (lambda arr: None)
     try:
         if k == 'new':
             d = {}
             for n, col in op['cols']:
                 d[UNIVERSE[n]] = mkarr(col)
-            conts.append(D(d, copy=True))
+            if op.get('nocopy'):
+                for arr in d.values():
+                    hold(arr)
+            conts.append(D(d, copy=not op.get('nocopy')))
+            return ('ok', ['cont', len(conts) - 1])
+        if k == 'newShared':
+            arr = conts[op['d']][UNIVERSE[op['m']]]
+            hold(arr)
+            conts.append(D({UNIVERSE[op['m']]: arr}, copy=False))
             return ('ok', ['cont', len(conts) - 1])
         a = conts[op['c']]
+        if k in ('appendFieldFrom', 'setItemFrom'):
+            arr = conts[op['d']][UNIVERSE[op['m']]]
+            if k == 'appendFieldFrom':
+                a.append_field(UNIVERSE[op['n']], arr)
+            else:
+                a[UNIVERSE[op['n']]] = arr
+            return ('ok', ['unit'])
         if k == 'append':
             a.append(conts[op['d']])
         elif k == 'appendField':
-            a.append_field(UNIVERSE[op['n']], mkarr(op['col']))
+            arr = mkarr(op['col'])
+            hold(arr)
+            a.append_field(UNIVERSE[op['n']], arr)
         elif k == 'setItem':
-            a[UNIVERSE[op['n']]] = mkarr(op['col'])
+            arr = mkarr(op['col'])
+            hold(arr)
+            a[UNIVERSE[op['n']]] = arr
         elif k == 'removeField':
             a.remove_field(UNIVERSE[op['n']])
         elif k == 'rename':
@@ -152,6 +173,34 @@ def sharing(conts):
     return res
 
 
+def cont_arrays(a):
+    out = []
+    for n in list(a.field_name_list):
+        try:
+            out.append(a[n])
+        except KeyError:
+            pass
+    return out
+
+
+def shares(xs, ys):
+    return any(x.size and y.size and np.may_share_memory(x, y) and np.shares_memory(x, y) for x in xs for y in ys)
+
+
+def legal(conts, op):
+    """set_selection whose source shares memory with the target (or a target with internally shared columns assigned
+    from itself) reads what it has just written; that read-after-write order is outside the model"""
+    if op['op'] != 'setSel':
+        return True
+    c, d = op['c'], op['d']
+    if not (0 <= c < len(conts) and 0 <= d < len(conts)):
+        return True
+    xs = cont_arrays(conts[c])
+    if c == d:
+        return not any(shares([xs[i]], [xs[j]]) for i in range(len(xs)) for j in range(i + 1, len(xs)))
+    return not shares(xs, cont_arrays(conts[d]))
+
+
 # ---------------------------------------------------------------------------------------------
 # reference: a plain table held in a numpy structured array (value semantics, failed op = no change)
 
@@ -161,31 +210,53 @@ class RefErr(Exception):
         self.kind = kind
 
 
+class Cell:
+    """one array object of the reference world (slots bound to the same Cell share their data)"""
+    __slots__ = ('a',)
+
+    def __init__(self, a):
+        self.a = a
+
+
 class RefTable:
+    """row count + ordered named columns.  A column is a Cell: operations that keep the array object keep the Cell,
+    operations that allocate make a new one, set_selection writes into it.  Reading goes through a numpy structured array."""
+
     def __init__(self, pairs, n):
         self.set(pairs, n)
 
     def set(self, pairs, n):
         self.names = [p[0] for p in pairs]
         self.n = int(n)
-        self.arr = np.empty(self.n, dtype=[(nm, a.dtype) for nm, a in pairs])
-        for nm, a in pairs:
-            self.arr[nm] = a
+        self.cells = {nm: (v if isinstance(v, Cell) else Cell(np.array(v, copy=True))) for nm, v in pairs}
+
+    def struct(self):
+        arr = np.empty(self.n, dtype=[(nm, self.cells[nm].a.dtype) for nm in self.names])
+        for nm in self.names:
+            arr[nm] = self.cells[nm].a
+        return arr
 
     def col(self, nm):
-        return np.array(self.arr[nm], copy=True)
+        return np.array(self.cells[nm].a, copy=True)
 
     def pairs(self):
+        """(name, fresh copy)"""
         return [(nm, self.col(nm)) for nm in self.names]
 
+    def kept(self):
+        """(name, the array object itself)"""
+        return [(nm, self.cells[nm]) for nm in self.names]
+
     def snap(self):
+        ok = all(len(self.cells[nm].a) == self.n for nm in self.names)
+        arr = self.struct() if ok else None
         return {'len': self.n, 'names': list(self.names),
-                'cols': [[nm, dtname(self.arr.dtype[nm]), ivals(self.arr[nm])] for nm in self.names],
+                'cols': [[nm, dtname(self.cells[nm].a.dtype), ivals(arr[nm] if ok else self.cells[nm].a)] for nm in self.names],
                 'idx': list(range(self.n)), 'has': [n for n in UNIVERSE if n in self.names]}
 
 
 def ref_apply(tabs, op, impl_out=None):
-    """the plain-table semantics of one operation; returns ('ok', out) | ('err', kind)."""
+    """the table semantics of one operation; returns ('ok', out) | ('err', kind).  A failed operation changes nothing."""
     k = op['op']
     try:
         if k == 'new':
@@ -195,32 +266,47 @@ def ref_apply(tabs, op, impl_out=None):
                 raise RefErr('value')
             tabs.append(RefTable(pairs, n))
             return ('ok', ['cont', len(tabs) - 1])
+        if k == 'newShared':
+            src, nm = tabs[op['d']], UNIVERSE[op['m']]
+            if nm not in src.names:
+                raise RefErr('key')
+            tabs.append(RefTable([(nm, src.cells[nm])], len(src.cells[nm].a)))
+            return ('ok', ['cont', len(tabs) - 1])
         t = tabs[op['c']]
         if k == 'append':
             d = tabs[op['d']]
             if any(nm not in d.names for nm in t.names):
                 raise RefErr('key')
             t.set([(nm, np.concatenate([t.col(nm), d.col(nm)])) for nm in t.names], t.n + d.n)
-        elif k in ('appendField', 'setItem'):
-            nm, arr = UNIVERSE[op['n']], mkarr(op['col'])
-            if nm in t.names:
-                if k == 'appendField':
+        elif k in ('appendField', 'setItem', 'appendFieldFrom', 'setItemFrom'):
+            nm = UNIVERSE[op['n']]
+            if k.endswith('From'):
+                src, m = tabs[op['d']], UNIVERSE[op['m']]
+                if m not in src.names:
                     raise RefErr('key')
-                if len(arr) != t.n:
-                    raise RefErr('value')
-                t.set([(m, arr if m == nm else a) for m, a in t.pairs()], t.n)
+                new = src.cells[m]            # the array object itself
+                ln = len(new.a)
             else:
-                if len(arr) != t.n:
+                new = mkarr(op['col'])
+                ln = len(new)
+            if nm in t.names:
+                if k.startswith('appendField'):
+                    raise RefErr('key')
+                if ln != t.n:
                     raise RefErr('value')
-                t.set(t.pairs() + [(nm, arr)], t.n)
+                t.set([(m_, new if m_ == nm else c) for m_, c in t.kept()], t.n)
+            else:
+                if ln != t.n:
+                    raise RefErr('value')
+                t.set(t.kept() + [(nm, new)], t.n)
         elif k == 'removeField':
             nm = UNIVERSE[op['n']]
             if nm not in t.names:
                 raise RefErr('key')
-            t.set([p for p in t.pairs() if p[0] != nm], t.n)
+            t.set([p for p in t.kept() if p[0] != nm], t.n)
         elif k == 'rename':
             before = list(t.names)
-            d = dict(t.pairs())
+            d = dict(t.kept())
             for o, n in op['convs']:
                 o, n = UNIVERSE[o], UNIVERSE[n]
                 if o in before and o in d:
@@ -230,7 +316,7 @@ def ref_apply(tabs, op, impl_out=None):
             t.set(list(d.items()), t.n)
         elif k == 'tidyUp':
             keep = [UNIVERSE[n] for n in op['keep']]
-            t.set([p for p in t.pairs() if p[0] in keep], t.n)
+            t.set([p for p in t.kept() if p[0] in keep], t.n)
         elif k == 'getSel':
             sel = mksel(op['sel'])
             try:
@@ -244,13 +330,13 @@ def ref_apply(tabs, op, impl_out=None):
             if any(nm not in d.names for nm in t.names):
                 raise RefErr('key')
             sel = mksel(op['sel'])
-            pairs = t.pairs()
-            try:
-                for nm, a in pairs:
+            try:                                  # dry run on copies: a failing assignment writes nothing
+                for nm, a in t.pairs():
                     a[sel] = d.col(nm)
             except (IndexError, ValueError) as e:
                 raise RefErr(errkind(e, k))
-            t.set(pairs, t.n)
+            for nm in t.names:                    # writes through the array objects, in field order
+                t.cells[nm].a[sel] = d.col(nm)
         elif k == 'sortBy':
             nm = UNIVERSE[op['n']]
             if nm not in t.names:
@@ -273,11 +359,12 @@ def ref_apply(tabs, op, impl_out=None):
             nm = UNIVERSE[op['n']]
             if nm not in t.names:
                 raise RefErr('key')
-            t.set([(m, a.astype(NP_DT[op['dt']]) if m == nm else a) for m, a in t.pairs()], t.n)
+            dt = NP_DT[op['dt']]
+            t.set([(m, (c if c.a.dtype == dt else c.a.astype(dt)) if m == nm else c) for m, c in t.kept()], t.n)
         elif k == 'convert':
             conv = {NP_DT[o]: NP_DT[n] for o, n in op['convs']}
             exc = [UNIVERSE[n] for n in op['exc']]
-            t.set([(m, a.astype(conv[a.dtype]) if (m not in exc and a.dtype in conv) else a) for m, a in t.pairs()], t.n)
+            t.set([(m, c.a.astype(conv[c.a.dtype]) if (m not in exc and c.a.dtype in conv) else c) for m, c in t.kept()], t.n)
         elif k == 'indices':
             return ('ok', ['idxs', list(range(t.n))])
         else:
@@ -304,7 +391,11 @@ def op_line(op, perm=None):
     if k == 'new':
         cs = ['%d:%s:%s' % (n, col['dt'], il(col['v'])) for n, col in op['cols']]
         return 'new ' + ('+'.join(cs) if cs else '-')
+    if k == 'newShared':
+        return 'newShared %d %d' % (op['d'], op['m'])
     c = op['c']
+    if k in ('appendFieldFrom', 'setItemFrom'):
+        return '%s %d %d %d %d' % (k, c, op['n'], op['d'], op['m'])
     if k == 'append':
         return 'append %d %d' % (c, op['d'])
     if k in ('appendField', 'setItem'):
